@@ -293,3 +293,98 @@ func init() {
 	register(&Scenario{Prop: "C04", Name: "c04/raw-poll2", Quick: []Bound{{2, 0}}, Thorough: []Bound{{3, 0}}, Body: c04Body(c04Modes()[7:]), BudgetQ: 25})
 	register(&Scenario{Prop: "C04", Name: "c04/lost-response", Quick: []Bound{{2, 0}}, Thorough: []Bound{{3, 0}}, Body: c04Lost})
 }
+
+// Structured arguments whose encoding omits zero fields (JSON omitempty; proto3 scalars behave the
+// same): the handler must see exactly what the client sent even when the server decodes into
+// recycled objects.  Every order of four requests with different sets of present fields, on one
+// connection, in several server modes.
+type OptReq struct {
+	ID   int32            `json:"id"`
+	A    int32            `json:"a,omitempty"`
+	B    int32            `json:"b,omitempty"`
+	Tags []string         `json:"tags,omitempty"`
+	M    map[string]int32 `json:"m,omitempty"`
+}
+
+type OptRes struct {
+	ID  int32 `json:"id"`
+	Sum int32 `json:"sum,omitempty"`
+	N   int32 `json:"n,omitempty"`
+}
+
+type OptSvc struct {
+	seen  map[int32]string
+	execs map[int32]int
+}
+
+func optString(r *OptReq) string {
+	keys := ""
+	for _, k := range []string{"p", "q", "r"} {
+		if v, ok := r.M[k]; ok {
+			keys += fmt.Sprintf("%s=%d,", k, v)
+		}
+	}
+	return fmt.Sprintf("{id:%d a:%d b:%d tags:%v m:%s}", r.ID, r.A, r.B, r.Tags, keys)
+}
+
+func (s *OptSvc) Sum(req *OptReq, res *OptRes) error {
+	s.execs[req.ID]++
+	s.seen[req.ID] = optString(req)
+	res.ID = req.ID
+	res.Sum = req.A + req.B
+	res.N = int32(len(req.Tags) + len(req.M))
+	return nil
+}
+
+var c04OptReqs = []OptReq{
+	{ID: 1, A: 1000, B: 3, Tags: []string{"x", "y"}, M: map[string]int32{"p": 1}},
+	{ID: 2, B: 3},
+	{ID: 3, A: 5, M: map[string]int32{"q": 2}},
+	{ID: 4},
+}
+
+func c04Partial(x *X) {
+	ps := perms(len(c04OptReqs))
+	order := ps[x.Choose(len(ps))]
+	mode := x.Choose(4)
+	so := srvOpts{bufSize: 64, codec: func() rpc.Codec { return rpc.NewJSONCodec() }}
+	switch mode {
+	case 1:
+		so.pipelining = true
+	case 2:
+		so.directIO = true
+	case 3:
+		so.shared = true
+	}
+	w := newWorld()
+	svc := &OptSvc{seen: map[int32]string{}, execs: map[int32]int{}}
+	srv := newServer(w, so)
+	srv.Register(svc)
+	cl, sv := NewPipe()
+	serveCodec(srv, sv, so)
+	conn := newConn(cl, so.enc, 64, so.codec)
+	out := fmt.Sprintf("mode=%d order=%v", mode, order)
+	for _, i := range order {
+		req := c04OptReqs[i]
+		var res OptRes
+		err := conn.Call("OptSvc.Sum", &req, &res)
+		want := OptRes{ID: req.ID, Sum: req.A + req.B, N: int32(len(req.Tags) + len(req.M))}
+		switch {
+		case err != nil:
+			x.Fail("C04/call-failed/partial-encoding", "call %s failed: %v", optString(&req), err)
+		case svc.execs[req.ID] != 1:
+			x.Fail(fmt.Sprintf("C04/executions=%d/partial-encoding", svc.execs[req.ID]), "request %s was executed %d times", optString(&req), svc.execs[req.ID])
+		case svc.seen[req.ID] != optString(&req):
+			x.Fail("C04/arguments-differ/partial-encoding", "the client sent %s, the handler was invoked with %s (requests before it in this order: %v)", optString(&req), svc.seen[req.ID], order)
+		case res != want:
+			x.Fail("C04/reply-differs/partial-encoding", "request %s: reply %+v, want %+v", optString(&req), res, want)
+		}
+	}
+	x.Outcome("%s", out)
+	conn.Close()
+	vs.Quiesce()
+}
+
+func init() {
+	register(&Scenario{Prop: "C04", Name: "c04/partial-encodings", Quick: []Bound{{0, 0}, {1, 0}}, Thorough: []Bound{{2, 0}}, Body: c04Partial, BudgetQ: 15, MinHB: 1})
+}
